@@ -34,11 +34,14 @@ KINDS = {
 ROOT_TAG = {k: k for k in KINDS}
 
 
-def server(want, slack=None, only=None):
+def server(want, slack=None, only=None, narrow=False):
     k = (repr(want), slack) if only is None else (repr(want), slack, only)
+    if narrow:
+        k = k + ('narrow',)
     if k not in _c:
         def lst(svc):
-            return [(u, b) for b, u in EP[svc].items()]
+            # narrow: the receiver registers its sign-on and logout services for one binding only (Redirect / SOAP)
+            return [(u, b) for b, u in EP[svc].items()][:1] if (narrow and svc in ('single_sign_on_service', 'single_logout_service')) else [(u, b) for b, u in EP[svc].items()]
         idp_eps = {s: lst(s) for s in ('single_sign_on_service', 'single_logout_service', 'manage_name_id_service',
                                        'name_id_mapping_service', 'assertion_id_request_service')}
         opts = {}
@@ -169,12 +172,20 @@ def cells(thorough):
             for ii, slack in itertools.product((0, DAY - 5, DAY + 5, -(DAY + 5), -3 * DAY, -3 * DAY + 600, -4 * DAY), (None, 60)):
                 out.append(dict(t='table', kind=kind, binding=binding, sig='none', want=None, dest='own', ii=ii, version='2.0', damage='none',
                                 slack=slack, late=3 * DAY))
+    # a receiver that registers the service for another binding than the one the request arrives over: the Destination
+    # still has to be one of its endpoints for that service
+    for kind, binding in (('AuthnRequest', POST), ('LogoutRequest', POST), ('LogoutRequest', REDIR)):
+        for d, sig in itertools.product(DEST, ('none', 'valid')):
+            out.append(dict(t='table', kind=kind, binding=binding, sig=sig, want=None, dest=d, ii=0, version='2.0', damage='none', slack=None, narrow=True))
     # schema damage below mandatory children
     for kind, dmg in (('AttributeQuery', 'subject-confirmation-without-method'), ('AuthnQuery', 'subject-confirmation-without-method'),
                       ('AuthzDecisionQuery', 'subject-confirmation-without-method'), ('LogoutRequest', 'name-id-without-text'),
                       ('AuthnRequest', 'nameid-policy-bad-boolean'), ('AuthnRequest', 'issuer-format-not-uri'),
                       ('AttributeQuery', 'attribute-without-name'), ('ManageNameIDRequest', 'two-new-ids'),
-                      ('AuthnRequest', 'wrong-root'), ('LogoutRequest', 'wrong-root')):
+                      ('AuthnRequest', 'wrong-root'), ('LogoutRequest', 'wrong-root'),
+                      ('AuthnRequest', 'nameid-policy-bad-boolean+nil'), ('AttributeQuery', 'attribute-without-name+nil'),
+                      ('AttributeQuery', 'subject-confirmation-without-method+nil'), ('AuthnQuery', 'subject-confirmation-without-method+nil'),
+                      ('AuthnRequest', 'id-missing+nil-on-root'), ('LogoutRequest', 'id-missing+nil-on-root'), ('AttributeQuery', 'id-missing+nil-on-root')):
         b = KINDS[kind][2][-1] if kind == 'AuthnRequest' else KINDS[kind][2][0]
         out.append(dict(t='table', kind=kind, binding=b, sig='none', want=None, dest='own', ii=0, version='2.0', damage=dmg, slack=None))
     return out
@@ -200,10 +211,23 @@ def damage(xml, kind, dmg):
     if dmg == 'wrong-root':
         other = 'LogoutRequest' if kind == 'AuthnRequest' else 'AuthnRequest'
         return xml.replace(':%s' % kind, ':%s' % other)
+    NIL = ' xmlns:xsi="http://www.w3.org/2001/XMLSchema-instance" xsi:nil="true"'
+    if dmg == 'nameid-policy-bad-boolean+nil':
+        # the same damage on an element that also says xsi:nil="true" (a foreign attribute here)
+        return xml.replace('AllowCreate="true"', 'AllowCreate="maybe"' + NIL)
+    if dmg == 'attribute-without-name+nil':
+        import re
+        return re.sub(r'(</(\w+):Subject>)', r'\1<\2:Attribute%s/>' % NIL, xml, 1)
+    if dmg == 'subject-confirmation-without-method+nil':
+        import re
+        return re.sub(r'(</(\w+):NameID>)(</\2:Subject>)', r'\1<\2:SubjectConfirmation%s/>\3' % NIL, xml, 1)
+    if dmg == 'id-missing+nil-on-root':
+        return xml.replace(' ID="Q1"', NIL, 1)
     return xml
 
 
-DMG_EFFECTIVE = ('subject-confirmation-without-method', 'nameid-policy-bad-boolean', 'attribute-without-name', 'wrong-root')
+DMG_EFFECTIVE = ('subject-confirmation-without-method', 'nameid-policy-bad-boolean', 'attribute-without-name', 'wrong-root',
+                 'nameid-policy-bad-boolean+nil', 'attribute-without-name+nil', 'subject-confirmation-without-method+nil', 'id-missing+nil-on-root')
 
 
 def build(c):
@@ -228,7 +252,12 @@ def must_reject(c):
     svc = KINDS[kind][1]
     if c['version'] != '2.0':
         why.append('version')
-    if c['dest'] not in ('absent', 'own'):
+    if c.get('narrow'):
+        d = dest_value(c['dest'], kind, binding)
+        own = list(EP[svc].values())[:1]            # what the narrow receiver registers for the service
+        if d is not None and d not in own:
+            why.append('destination-not-receivers-endpoint-for-service')
+    elif c['dest'] not in ('absent', 'own'):
         d = dest_value(c['dest'], kind, binding)
         if d not in EP[svc].values() or True:
             if d != EP[svc][binding]:
@@ -255,7 +284,7 @@ def evaluate(c):
 def _evaluate(c):
     env.Clock.set(env.BASE + (c.get('late', 0) if c['t'] == 'table' else 0))
     if c['t'] == 'table':
-        srv = server(c['want'], c['slack'], c.get('only'))
+        srv = server(c['want'], c['slack'], c.get('only'), bool(c.get('narrow')))
         xml = build(c)
         r = parse(srv, c['kind'], encode(xml, c['binding']), c['binding'])
         why = must_reject(c) if r['accept'] else []
